@@ -46,6 +46,10 @@ def _worker_spec(modnames):
 
 
 def model_value(m, t):
+    if isinstance(m, tuple):
+        m, ctx = m
+        if ctx is not None:
+            t = t.translate(ctx)
     v = m.eval(t, model_completion=True)
     if z3.is_rational_value(v):
         return '%s/%s' % (v.numerator_as_long(), v.denominator_as_long()) \
@@ -75,13 +79,12 @@ def witness_of(X_env, model):
         if isinstance(v, Con):
             return {'con': repr(v.v)}
         if isinstance(v, OptV):
-            if z3.is_true(model.eval(v.isnone, model_completion=True)):
+            if model_value(model, v.isnone) is True:
                 return None
             return conv(v.val)
         if isinstance(v, ListV):
-            n = model.eval(v.n, model_completion=True)
             try:
-                n = n.as_long()
+                n = int(model_value(model, v.n))
             except Exception:
                 return {'list': '?'}
             if n > 12:
@@ -96,9 +99,9 @@ def witness_of(X_env, model):
     return out
 
 
-def run_contract(args):
-    """Worker: all paths of one contract, discharged in-process."""
-    modnames, key, timeout_ms, seed, opts = args
+def gen_contract(args):
+    """Phase 1 worker: all paths of one contract -> obligations as SMT-LIB text."""
+    modnames, key, opts = args
     from . import spec as S, vc, front
     from .sym import OutOfSubset
     t0 = time.time()
@@ -106,78 +109,25 @@ def run_contract(args):
            'assumptions': [], 'exits': {}}
     try:
         sp = _worker_spec(modnames)
-        ct = sp.contracts[key]
         run = S.FunctionRun(sp, key, inline_all=opts.get('inline_all', False))
         obs = run.run()
         res['paths'] = run.paths
         for kind, _ in run.exits:
-            k = kind.split(':')[0] if kind.startswith('raise') else kind
             res['exits'][kind] = res['exits'].get(kind, 0) + 1
         m, fn = sp.function_for(key)
         res['function'] = front.describe(m, fn)
-        res['assumptions'] = sorted(run.assumptions_used)
-        env_cache = None
+        res['assumptions'] = sorted(run.assumptions_used) + list(sp.assumptions)
         for ob in obs:
-            ob.model_obj = None
+            rec = {'name': ob.name, 'kind': ob.kind, 'role': ob.role, 'line': ob.where,
+                   'path': list(ob.decisions), 'contract': key, 'info': ob.info or None}
             if z3.is_true(ob.goal):
-                ob.result, ob.seconds, ob.backend, ob.reason = 'proved', 0.0, 'trivial', ''
-                ob.smt2 = ''
-                continue
-            fs, _tab = vc.formulas_of(ob)
-            s_ = z3.Solver()
-            s_.set('timeout', timeout_ms)
-            s_.set('random_seed', seed)
-            for f in fs:
-                s_.add(f)
-            t1 = time.time()
-            try:
-                r = str(s_.check())
-                ob.reason = s_.reason_unknown() if r == 'unknown' else ''
-            except z3.Z3Exception as e:
-                r, ob.reason = 'error', repr(e)
-            ob.seconds = time.time() - t1
-            ob.backend = 'z3-%s' % z3.get_version_string()
-            ob.result = {'unsat': 'proved', 'sat': 'sat', 'unknown': 'unknown',
-                         'error': 'error'}[r]
-            ob.smt2 = ''
-            if ob.result != 'proved':
-                ob.smt2 = s_.to_smt2()
-                if ob.result == 'sat':
-                    ob.model_obj = s_.model()
-        for ob in obs:
-            rec = {'name': ob.name, 'kind': ob.kind, 'role': ob.role, 'result': ob.result,
-                   'seconds': round(ob.seconds, 4), 'backend': ob.backend, 'line': ob.where,
-                   'path': list(ob.decisions), 'reason': ob.reason, 'contract': key}
-            if ob.info:
-                rec['info'] = ob.info
-            if ob.result in ('sat', 'unknown') and ob.kind != 'canary':
-                rec['smt2_head'] = ob.smt2[:1500]
-                rec['params'] = shapes_of(run_env(sp, run, key))
-                if ob.result == 'sat' and ob.kind != 'canary':
-                    try:
-                        model = ob.model_obj
-                        if model is not None:
-                            rec['witness'] = witness_of(run_env(sp, run, key), model)
-                            rec['model'] = str(model)[:3000]
-                    except Exception as e:
-                        rec['witness_error'] = repr(e)
-                elif opts.get('refute', True) and ob.kind != 'canary':
-                    from . import refute
-                    try:
-                        fm = refute.finite_scope(ob, scope=opts.get('scope', 3),
-                                                 timeout_ms=timeout_ms)
-                        if fm is not None:
-                            rec['result'] = 'refuted-finite-scope'
-                            rec['model'] = fm['text'][:4000]
-                            rec['scope'] = fm['scope']
-                            try:
-                                rec['witness'] = witness_of(run_env(sp, run, key), fm['model'])
-                            except Exception as e:
-                                rec['witness_error'] = repr(e)
-                    except Exception as e:
-                        rec['refute_error'] = repr(e)
-            if opts.get('keep_smt2'):
-                rec['smt2'] = ob.smt2
+                rec.update(result='proved', seconds=0.0, backend='trivial', reason='', smt2='')
+            else:
+                fs, _tab = vc.formulas_of(ob)
+                s0 = z3.Solver()
+                for f in fs:
+                    s0.add(f)
+                rec['smt2'] = s0.to_smt2()
             res['obligations'].append(rec)
     except OutOfSubset as e:
         res['error'] = 'out-of-subset: %s' % e
@@ -189,6 +139,77 @@ def run_contract(args):
         res['error'] = 'engine-crash: %r\n%s' % (e, traceback.format_exc()[-1500:])
     res['wall_s'] = round(time.time() - t0, 3)
     return res
+
+
+def solve_obligation(args):
+    """Phase 2 worker: one obligation, in a FRESH z3 context (verdicts must not
+    depend on what was solved before in the process); `unknown` is retried with
+    another seed before it counts as undecided; then the finite-scope refuter."""
+    modnames, rec, timeout_ms, seed, opts = args
+    if rec.get('result') == 'proved':
+        return rec
+    t1 = time.time()
+    attempts = [(seed, timeout_ms), (seed + 1, max(1000, timeout_ms // 2))]
+    r, reason, n_att = 'unknown', '', 0
+    s_ = ctx = None
+    for sd, to in attempts:
+        n_att += 1
+        ctx = z3.Context()
+        s_ = z3.Solver(ctx=ctx)
+        try:
+            s_.from_string(rec['smt2'])
+            s_.set('timeout', to)
+            s_.set('random_seed', sd)
+            r = str(s_.check())
+            reason = s_.reason_unknown() if r == 'unknown' else ''
+        except z3.Z3Exception as e:
+            r, reason = 'error', repr(e)
+        if r != 'unknown' or rec['kind'] == 'canary':
+            break
+    rec['seconds'] = round(time.time() - t1, 4)
+    rec['backend'] = 'z3-%s' % z3.get_version_string()
+    rec['reason'] = reason
+    rec['attempts'] = n_att
+    rec['result'] = {'unsat': 'proved', 'sat': 'sat', 'unknown': 'unknown', 'error': 'error'}[r]
+    if rec['result'] == 'proved':
+        rec['smt2'] = ''
+        return rec
+    if rec['kind'] == 'canary':
+        rec['smt2'] = ''
+        return rec
+    rec['smt2_head'] = rec['smt2'][:1500]
+    try:
+        sp = _worker_spec(modnames)
+        env = run_env(sp, None, rec['contract'])
+        rec['params'] = shapes_of(env)
+    except Exception as e:
+        env = {}
+        rec['witness_error'] = repr(e)
+    if rec['result'] == 'sat':
+        try:
+            model = (s_.model(), ctx)
+            rec['witness'] = witness_of(env, model)
+            rec['model'] = str(model[0])[:3000]
+        except Exception as e:
+            rec['witness_error'] = repr(e)
+    elif rec['result'] == 'unknown' and opts.get('refute', True):
+        from . import refute
+        try:
+            fm = refute.finite_scope_smt2(rec['smt2'], scope=opts.get('scope', 3),
+                                          timeout_ms=min(timeout_ms, 6000))
+            if fm is not None:
+                rec['result'] = 'refuted-finite-scope' if fm['exact'] else 'candidate-finite-scope'
+                rec['model'] = fm['text'][:4000]
+                rec['scope'] = fm['scope']
+                try:
+                    rec['witness'] = witness_of(env, (fm['model'], fm['ctx']))
+                except Exception as e:
+                    rec['witness_error'] = repr(e)
+        except Exception as e:
+            rec['refute_error'] = repr(e)
+    if not opts.get('keep_smt2'):
+        rec['smt2'] = ''
+    return rec
 
 
 def shapes_of(env):
@@ -229,8 +250,14 @@ def run_env(sp, run, key):
 
 def run_all(modnames, keys, timeout_ms, seed, opts, workers=16):
     ctx = mp.get_context('fork')
-    jobs = [(modnames, k, timeout_ms, seed, opts) for k in keys]
-    if workers <= 1 or len(jobs) == 1:
-        return [run_contract(j) for j in jobs]
-    with ctx.Pool(min(workers, len(jobs))) as p:
-        return p.map(run_contract, jobs, chunksize=max(1, len(jobs) // (workers * 8)))
+    jobs = [(modnames, k, opts) for k in keys]
+    with ctx.Pool(min(workers, max(1, len(jobs)))) as p:
+        results = p.map(gen_contract, jobs, chunksize=max(1, len(jobs) // (workers * 8)))
+        flat = [(modnames, rec, timeout_ms, seed, opts)
+                for r in results for rec in r['obligations']]
+        # hardest first is unknown in advance: plain order, small chunks
+        solved = p.map(solve_obligation, flat, chunksize=max(1, min(16, len(flat) // (workers * 4) or 1)))
+    it = iter(solved)
+    for r in results:
+        r['obligations'] = [next(it) for _ in r['obligations']]
+    return results
